@@ -52,7 +52,14 @@ const Rule = "cases = (grammar, iteration-shuffle seed, queries) drawn from VERI
 	"(thorough: 1..1025) terminals with the ones that sort last beginning derivations and colliding, as many non-terminals in " +
 	"a chain, alternatives of one head, symbols of one body - queried at both ends, grown past the size and shrunk back; " +
 	"FIRST asked through ONE buffer of the caller that is overwritten with the next string (firstbuf); the lexer of cases " +
-	"with parses ends its input in one of seven ways (header eof=); non-trivial = the grammar " +
+	"with parses ends its input in one of seven ways (header eof=); (second hardening round) EXACTLY ONE LL(1) VIOLATION " +
+	"(FIRST/FIRST, FIRST/FOLLOW through A -> eps, FIRST/FOLLOW through a nullable non-terminal body A -> B, or none) in a head " +
+	"with m alternatives for EVERY m from 2 to 40 and m = 63..66, 130, 257, the offending alternative early / in the middle / " +
+	"late in the sort order of the productions: IsLL1's verdict against the table's conflicts and the oracle; SAME-BUCKET NAMES: " +
+	"small grammars whose 17-23 (35-40) symbols / non-terminals / terminals all start at ONE slot of the library's 31-slot " +
+	"(67-slot) quadratic-probing tables, the names found by asking the library's own tables (SameBucketNames); with an " +
+	"enlarged budget every number of non-terminals and terminals from 1 to 200; every op on a grammar with >= 16 symbols runs " +
+	"under a watchdog of 8 s; non-trivial = the grammar " +
 	"has a nullable non-terminal, a left-corner cycle, or an unreachable/unproductive non-terminal; distinct = distinct (header, op list)"
 
 // ---------------------------------------------------------------- independent oracle
@@ -3441,7 +3448,7 @@ func BucketGrammars(k int) (gx.G, string) {
 	kinds := []string{"symbol", "nonterminal", "terminal"}
 	kind := kinds[k%3]
 	m, total := 31, 17+(k/3)%7
-	if (k/21)%4 == 3 {
+	if (k/3)%5 == 4 {
 		m, total = 67, 35+(k/3)%6
 	}
 	var nNT, nT int
@@ -3741,6 +3748,17 @@ func Main(run *hx.Run) {
 					c := hx.Case{Header: fmt.Sprintf("comp=analysis mix=one-violation kind=%s alternatives=%d pos=%d shuffle=%d", LL1Kinds[kind], m, pos, r.Intn(1<<30)), Ops: ops}
 					run.Do("analysis", c, Exec)
 				}
+			}
+		}
+	}
+	// (enlarged budget) every number of non-terminals (a shallow tree) and of terminals (a keyword table) from 1 to 200
+	if run.Huge() {
+		r := run.R.Fork("every-size")
+		for n := 1; n <= 200; n++ {
+			for d, g := range []gx.G{TreeGrammar(numbered("N", n), []string{"a", "b"}), KeywordGrammar([]string{"S", "A"}, numbered("t", n))} {
+				ops := append(g.Lines(), "first "+g.Start, "follow "+g.NonTerms[len(g.NonTerms)-1], "ll1", "cell "+g.Start+" "+g.Terms[len(g.Terms)-1], "unchanged")
+				c := hx.Case{Header: fmt.Sprintf("comp=analysis mix=every-size dim=%s size=%d shuffle=%d", []string{"nonterminals", "terminals"}[d], n, r.Intn(1<<30)), Ops: ops}
+				run.Do("analysis", c, Exec)
 			}
 		}
 	}
